@@ -9,6 +9,22 @@
 //! without generics through [`CaseApi`] / [`open_case`].
 //!
 //! Addresses are never printed, only `address % alignment` and offsets relative to `raw_ptr()`.
+//!
+//! Readings chosen where PROTOCOL.md leaves room (all in one place):
+//! * operations and observations go through the live arena value with the LOWEST id;
+//! * `r=panic` of a buffer operation carries `len=` ([`PANIC_CARRIES_LEN`]);
+//! * `po=dangling` is printed for zero-sized `T` and for any returned pointer that does not point
+//!   into the arena (the dangling pointer of an empty *owned* buffer);
+//! * the zero check `z=` of `alloc_d*` reads the arena bytes `[off, off+cap)` (the handle keeps
+//!   its `DropCounter` in a slot inside the handle, `as_mut_ptr()` is not arena memory); `fill`
+//!   of such a handle is `r=nohandle`;
+//! * `drop_arena C` of an unknown `C` is `r=nohandle`; `clone 0`, `clone` of a live id,
+//!   `drop_arena` of the last arena value, an allocation re-using a live handle id, `(A, S)`
+//!   outside the table, a value that does not parse as the named integer type, `put_slice` with
+//!   `L >` [`MAX_SLICE`], wrong arity and the empty line are all `bad-op` (no effect);
+//! * a `cfg` line that is `bad-op` or fails leaves no case: following lines are `r=nocase`, as
+//!   are lines before the first `cfg`;
+//! * `mem=`: with the unified layout the 4 padding bytes `[data_offset-4, data_offset)` hash as 0.
 
 use std::collections::{BTreeMap, HashMap};
 use std::panic::{catch_unwind, AssertUnwindSafe};
@@ -799,8 +815,15 @@ impl<A: Flavour> Case<A> {
     } else {
       fnv1a(FNV_OFFSET, m)
     };
+    // `ma`: the same hash over the allocated prefix memory()[..allocated] only
+    let al = a.allocated().min(m.len());
+    let ma = if a.unify() && d >= 4 && d <= al {
+      fnv1a(fnv1a(fnv1a(FNV_OFFSET, &m[..d - 4]), &[0, 0, 0, 0]), &m[d..al])
+    } else {
+      fnv1a(FNV_OFFSET, &m[..al])
+    };
     format!(
-      "al={} di={} rem={} ms={} cp={} rf={} fl=[{}] mem={:016x}",
+      "al={} di={} rem={} ms={} cp={} rf={} fl=[{}] mem={:016x} ma={:016x}",
       a.allocated(),
       a.discarded(),
       a.remaining(),
@@ -808,7 +831,8 @@ impl<A: Flavour> Case<A> {
       a.capacity(),
       a.refs(),
       fl,
-      mem
+      mem,
+      ma
     )
   }
 
@@ -824,7 +848,9 @@ impl<A: Flavour> Case<A> {
     let [off, cap, boff, bcap] = slot.dims();
     let mut s = format!("r=ok off={off} cap={cap} boff={boff} bcap={bcap}");
     if let Some(a) = am {
-      s.push_str(&format!(" am={}", slot.ptr() as usize as u64 % a));
+      // a handle without accessible bytes has nothing to align (its pointer may be dangling)
+      let am = if cap == 0 { 0 } else { slot.ptr() as usize as u64 % a };
+      s.push_str(&format!(" am={}", am));
     }
     if z {
       // The DropCounter handles keep their value in a slot inside the handle, not in the arena:
@@ -1050,8 +1076,25 @@ impl<A: Flavour> Case<A> {
             _ => return None,
           }}};
         }
+        // reference decode of memory()[off..off+w] done here, independently of the crate's readers
+        let w: usize = match ty { "u8" | "i8" => 1, "u16" | "i16" => 2, "u32" | "i32" => 4, "u64" | "i64" => 8, _ => 16 };
+        let reference = |m: &[u8]| -> Option<String> {
+          let end = off.checked_add(w)?;
+          let b = m.get(off..end)?;
+          let mut u: u128 = 0;
+          for k in 0..w {
+            let byte = if ord == "le" { b[w - 1 - k] } else { b[k] };
+            u = (u << 8) | byte as u128;
+          }
+          Some(if ty.starts_with('i') {
+            let bits = 8 * w as u32;
+            if bits < 128 && (u >> (bits - 1)) & 1 == 1 { (u as i128 - (1i128 << bits)).to_string() } else { (u as i128).to_string() }
+          } else {
+            u.to_string()
+          })
+        };
         match rd!(u16 u32 u64 u128 i16 i32 i64 i128) {
-          Ok(v) => format!("r=ok val={v}"),
+          Ok(v) => format!("r=ok val={v} ref={}", reference(a.memory()).unwrap_or_else(|| "none".to_string())),
           Err(e) => format!("r={}", err_name(&e)),
         }
       }
@@ -1126,11 +1169,23 @@ impl<A: Flavour> Case<A> {
         // validate the arguments before looking at the handle so that malformed lines are
         // `bad-op` no matter what the handle is
         Self::check_buf_args(t)?;
-        match self.handles.get_mut(&h) {
+        // implementation-side oracle `oo`: did the call leave every byte of memory() outside the
+        // accessible range [offset, offset+capacity) of this handle unchanged?
+        let dims = self.handles.get(&h).map(|s| s.dims());
+        let before: Vec<u8> = unsafe { std::slice::from_raw_parts(base as *const u8, cap) }.to_vec();
+        let res = match self.handles.get_mut(&h) {
           Some(Slot { h: Handle::BRef(b), .. }) => Self::buf_op(b, t, base, cap)?,
           Some(Slot { h: Handle::BOwn(b), .. }) => Self::buf_op(b, t, base, cap)?,
-          _ => NOHANDLE.to_string(),
-        }
+          _ => return Some(NOHANDLE.to_string()),
+        };
+        let after = unsafe { std::slice::from_raw_parts(base as *const u8, cap) };
+        let [off, hcap, _, _] = dims.unwrap_or([0, 0, 0, 0]);
+        let oo = before
+          .iter()
+          .zip(after.iter())
+          .enumerate()
+          .all(|(i, (x, y))| x == y || (i >= off && i < off + hcap));
+        format!("{res} oo={}", oo as u8)
       }
       _ => return None,
     })
